@@ -11,7 +11,8 @@
     implementation, model and occurrence scan on every generated case). *)
 From PM Require Import Model.Prelude Model.Domain Model.Constraint Model.Matchers
   Model.DomString Model.DomMatrix Spec.Occ Proofs.SingleDomains Proofs.NaiveProofs Proofs.OccProofs Proofs.StringSingle Proofs.MatrixSingle
-  Model.DomPGKeys Model.DomPG Model.DomPGPattern Proofs.PGEmbed.
+  Model.DomPGKeys Model.DomPG Model.DomPGPattern Proofs.PGEmbed
+  Proofs.PGSingleGood Proofs.PGSingleTotal Proofs.PGWalkEmbed.
 
 Theorem c05_string_single_sound_partial :
   forall p h fuel r, p <> [] ->
@@ -104,6 +105,50 @@ Theorem c05_portgraph_single_embeds :
       /\ Dist m nk.
 Proof. exact pg_single_embeds. Qed.
 
+(** Port graphs, completeness half, where it holds: a pattern that passes the
+    per-pattern validation [pg_good_pattern] — every key hangs off the single index
+    root Root(0), and the pattern's own walks from the root reach every keyed node
+    at the recorded distance (evaluated by the extracted model on the pattern of
+    every miss that the harness puts down to a known finding: always 0 there) —
+    has every embedding into a well-formed host reported by the single-pattern
+    matcher, each pattern node bound to its image.  [pg_embedding]: links go to
+    links, [f] is injective on the nodes of the pattern, the image of the root is
+    a node of the host.  The proof: walks commute with embeddings
+    (Proofs/PGWalkEmbed.v), so list_bind_options offers the image of every key;
+    then the generic completeness of the FIFO loop. *)
+Theorem c05_portgraph_single_reports_embeddings_of_good_patterns :
+  forall (P : pghost) (root : N) cs nk (H : pghost) (f : N -> N) fuel r,
+    pg_cvec_full P root = Ok (cs, nk) -> lines_sound P root = true -> keys_distinct nk = true ->
+    pg_good_pattern P root cs nk = true -> pg_host_wfb P = true -> pg_host_wfb H = true ->
+    pg_embedding P H root nk f ->
+    single pg_dom fuel cs H = Ok r ->
+    exists m, In m r /\ forall u k, In (u, k) nk -> pgget m k = Some (f u).
+Proof. exact pg_single_reports_embedding. Qed.
+
+(** with termination (C08): beyond some fuel the baseline returns, and reports it *)
+Theorem c05_portgraph_single_reports_embeddings_total :
+  forall (P : pghost) (root : N) cs nk (H : pghost) (f : N -> N),
+    pg_cvec_full P root = Ok (cs, nk) -> lines_sound P root = true -> keys_distinct nk = true ->
+    pg_good_pattern P root cs nk = true -> pg_host_wfb P = true -> pg_host_wfb H = true ->
+    pg_embedding P H root nk f ->
+    exists fuel0, forall fuel, (fuel0 <= fuel)%nat ->
+      exists r m, single pg_dom fuel cs H = Ok r /\ In m r /\ forall u k, In (u, k) nk -> pgget m k = Some (f u).
+Proof.
+  intros P root cs nk H f CV Hls Hkd Hg HwP HwH He.
+  destruct (pg_single_total P root cs H) as [f0 Hf0].
+  { unfold pg_constraint_vec. now rewrite CV. }
+  exists f0. intros fuel Hle. destruct (Hf0 fuel Hle) as [r Hr].
+  destruct (pg_single_reports_embedding P root cs nk H f fuel r CV Hls Hkd Hg HwP HwH He Hr) as [m [Hm HQ]].
+  exists r, m. auto.
+Qed.
+
+(** Non-vacuity: a path of three nodes rooted at its first node is a good pattern *)
+Example c05_good_pattern_example :
+  let P := {| pg_nodes := [Some (0, 1); Some (1, 1); Some (1, 0)]%N; pg_links := [(0, 0, 1, 0); (1, 0, 2, 0)]%N |} in
+  exists cs nk, pg_cvec_full P 0 = Ok (cs, nk) /\ pg_good_pattern P 0 cs nk = true
+                /\ lines_sound P 0 = true /\ keys_distinct nk = true /\ pg_host_wfb P = true.
+Proof. eexists. eexists. split; [vm_compute; reflexivity|]. vm_compute. auto. Qed.
+
 (** Port graphs, completeness half: refuted on the faithful model (known
     findings D5, D6 of KNOWN_FINDINGS.json; the same witnesses fail on the
     implementation — corpus of the pg sub-checks).  In both cases the identity is
@@ -156,5 +201,7 @@ Print Assumptions c05_matrix_single_exact.
 Print Assumptions c05_matrix_match_exists_exact.
 Print Assumptions c05_matrix_naive_exact.
 Print Assumptions c05_portgraph_single_embeds.
+Print Assumptions c05_portgraph_single_reports_embeddings_of_good_patterns.
+Print Assumptions c05_portgraph_single_reports_embeddings_total.
 Print Assumptions c05_portgraph_complete_refuted_line_through_root.
 Print Assumptions c05_portgraph_complete_refuted_root_hidden.
